@@ -6,6 +6,8 @@ import os
 import numpy as np
 
 from .. import engine, refmodel as rm
+from .. import histories
+from ..histories import t_callhist        # worker task of the history harness (mc/histories.py)
 
 PID = 'C13'
 MOD = 'mc.props.c13'
@@ -373,6 +375,8 @@ def chk_badtype(case, acc, seed):
 DISPATCH = {'samenum': chk_same_numbers, 'valhist': chk_value_history, 'binary': chk_binary, 'commute': chk_commute, 'unitinv': chk_unit_invariance, 'scalar': chk_scalar, 'badtype': chk_badtype}
 
 
+DISPATCH['histop'] = histories.chk_case
+
 def t_pair(arg, acc):
     tier, seed, pair, opn = arg['tier'], arg['seed'], arg['pair'], arg['op']
     for sampling in ('min', 'left', 'right', 25.0, 70.0):
@@ -425,6 +429,7 @@ def run(tier, seed, acc, procs=None):
     tasks.append(('t_scalar', {'seed': seed}))
     acc.states += 1
     acc.transitions += len(tasks)
+    tasks += histories.tasks_for(PID, seed)        # pairwise call histories over the operations this property is anchored in
     engine.run_parallel(MOD, tasks, acc, procs)
     return {
         'rule': 'operand pairs (identical, nested, partially overlapping, disjoint, non-uniform grids on integer nm) x 5 operators x '
@@ -439,5 +444,8 @@ def run(tier, seed, acc, procs=None):
 
 
 def replay(case, acc):
+    if case.get('kind') == 'histop':
+        import os as _os
+        return histories.chk_case(case, acc, int(_os.environ.get('VERIF_SEED', '0') or 0))
     seed = int(os.environ.get('VERIF_SEED', '0') or 0)
     DISPATCH[case['kind']](case, acc, seed)
